@@ -343,7 +343,7 @@ func c14Run(c c14Case, st *vlib.Stats) string {
 	ferr := eng.ExecStmt(c.Failing)
 	if ferr == nil {
 		switch c.Kind {
-		case "create-badlen", "create-longname", "where-error-kth", "case-variant", "where-unknown-col":
+		case "create-badlen", "create-longname", "where-error-kth", "case-variant", "where-unknown-col", "huge-valid":
 			// whether these fail is the implementation's choice (how wide the catalog's length
 			// column is, whether a comparison with NULL is an error); the property only says
 			// what must hold IF the statement returns an error
@@ -445,6 +445,69 @@ func c14Run(c c14Case, st *vlib.Stats) string {
 	return ""
 }
 
+// c14HugeCase is a fixed case per shard: a VALID statement that touches
+// thousands of rows. Nothing says it must fail - but if the implementation
+// refuses it (a size limit somewhere below the executor), the refusal must not
+// leave the rows behind.
+func c14HugeCase(shard int) c14Case {
+	var c c14Case
+	c.Kind = "huge-valid"
+	add := func(s model.Stmt) model.Stmt {
+		s.SQL = gen.RenderStmt(gen.Plain(), s)
+		return s
+	}
+	c.History = append(c.History, add(model.Stmt{Kind: "create", Table: "big", Cols: []model.Col{{Name: "a", Type: model.TInt}, {Name: "s", Type: model.TVarchar, Len: 80}}}))
+	pad := strings.Repeat("p", 50)
+	rowsStmt := func(from, to int, wide bool) model.Stmt {
+		ins := model.Stmt{Kind: "insert", Table: "big"}
+		for n := from; n < to; n++ {
+			v := "v"
+			if wide {
+				v = fmt.Sprintf("%s%d", pad, n)
+			}
+			ins.Rows = append(ins.Rows, []model.Val{model.Int(int64(n)), model.Str(v)})
+		}
+		return add(ins)
+	}
+	load := func(rows int, wide bool) {
+		for n := 0; n < rows; n += 500 {
+			to := n + 500
+			if to > rows {
+				to = rows
+			}
+			c.History = append(c.History, rowsStmt(n, to, wide))
+		}
+	}
+	size := []int{3000, 4200, 5500}[(shard/3)%3]
+	switch shard % 3 {
+	case 0:
+		load(20, false)
+		c.Failing = rowsStmt(20, 20+size, true)
+		c.N = size
+	case 1:
+		load(size, true)
+		c.Failing = add(model.Stmt{Kind: "update", Table: "big", Set: []model.Assign{{Col: "s", Val: model.Str(pad + "updated")}}})
+		c.N = size
+	default:
+		load(size*2+1000, false)
+		c.Failing = add(model.Stmt{Kind: "delete", Table: "big"})
+		c.N = size*2 + 1000
+	}
+	c.History[len(c.History)-1].FlushAfter = shard%2 == 0
+	return c
+}
+
 func TestC14(t *testing.T) {
-	vlib.Drive(t, vlib.Prop[c14Case]{ID: "C14", Gen: c14Gen, Run: c14Run})
+	st := vlib.NewStats("C14")
+	defer st.Write(Cfg, "C14")
+	if Cfg.Replay == "" {
+		hc := c14HugeCase(Cfg.Shard)
+		if msg := c14Run(hc, st); msg != "" {
+			b, _ := json.Marshal(hc)
+			st.Fail("fixed huge-statement case: "+msg, b)
+			vlib.Logf("FAIL C14 (huge statement): %s", msg)
+			return
+		}
+	}
+	vlib.DriveWith(t, vlib.Prop[c14Case]{ID: "C14", Gen: c14Gen, Run: c14Run}, Cfg, st)
 }
